@@ -203,6 +203,10 @@ func (e *FakeEngine) VirtualizationCreate(ctx context.Context, opts *enginetypes
 	if err != nil {
 		return nil, err
 	}
+	if cerr := ctx.Err(); cerr != nil {
+		e.hub.rec.done(idx, cerr)
+		return nil, cerr
+	}
 	h := e.hub
 	h.mu.Lock()
 	h.counter++
@@ -221,9 +225,18 @@ func (e *FakeEngine) VirtualizationCreate(ctx context.Context, opts *enginetypes
 }
 
 func (e *FakeEngine) withContainer(kind, id, arg string, f func(c *Container) error) error {
+	return e.withContainerCtx(context.Background(), kind, id, arg, f)
+}
+
+// withContainerCtx: like a remote engine, a call made with a finished context fails without effect
+func (e *FakeEngine) withContainerCtx(ctx context.Context, kind, id, arg string, f func(c *Container) error) error {
 	idx, err := e.hub.rec.enter(kind, e.node, id, arg)
 	if err != nil {
 		return err
+	}
+	if cerr := ctx.Err(); cerr != nil {
+		e.hub.rec.done(idx, cerr)
+		return cerr
 	}
 	h := e.hub
 	h.mu.Lock()
@@ -239,11 +252,11 @@ func (e *FakeEngine) withContainer(kind, id, arg string, f func(c *Container) er
 }
 
 func (e *FakeEngine) VirtualizationStart(ctx context.Context, id string) error {
-	return e.withContainer("engineStart", id, "", func(c *Container) error { c.Running = true; return nil })
+	return e.withContainerCtx(ctx, "engineStart", id, "", func(c *Container) error { c.Running = true; return nil })
 }
 
 func (e *FakeEngine) VirtualizationStop(ctx context.Context, id string, _ time.Duration) error {
-	return e.withContainer("engineStop", id, "", func(c *Container) error { c.Running = false; return nil })
+	return e.withContainerCtx(ctx, "engineStop", id, "", func(c *Container) error { c.Running = false; return nil })
 }
 
 func (e *FakeEngine) VirtualizationSuspend(ctx context.Context, id string) error {
@@ -255,7 +268,7 @@ func (e *FakeEngine) VirtualizationResume(ctx context.Context, id string) error 
 }
 
 func (e *FakeEngine) VirtualizationRemove(ctx context.Context, id string, _ bool, force bool) error {
-	return e.withContainer("engineRemove", id, "", func(c *Container) error {
+	return e.withContainerCtx(ctx, "engineRemove", id, "", func(c *Container) error {
 		if c.Running && !force {
 			return errors.New("verif: fake engine: container is running, remove needs force")
 		}
@@ -265,7 +278,7 @@ func (e *FakeEngine) VirtualizationRemove(ctx context.Context, id string, _ bool
 }
 
 func (e *FakeEngine) VirtualizationInspect(ctx context.Context, id string) (info *enginetypes.VirtualizationInfo, err error) {
-	err = e.withContainer("engineInspect", id, "", func(c *Container) error {
+	err = e.withContainerCtx(ctx, "engineInspect", id, "", func(c *Container) error {
 		info = &enginetypes.VirtualizationInfo{ID: c.ID, User: c.User + e.hub.UserSuffix, Image: c.Image, Running: c.Running, Env: c.Env, Labels: c.Labels}
 		return nil
 	})
@@ -273,7 +286,7 @@ func (e *FakeEngine) VirtualizationInspect(ctx context.Context, id string) (info
 }
 
 func (e *FakeEngine) VirtualizationUpdateResource(ctx context.Context, id string, params resourcetypes.Resources) error {
-	return e.withContainer("engineUpdate", id, "", func(c *Container) error { c.EngineParams = params; return nil })
+	return e.withContainerCtx(ctx, "engineUpdate", id, "", func(c *Container) error { c.EngineParams = params; return nil })
 }
 
 func (e *FakeEngine) VirtualizationWait(ctx context.Context, id, _ string) (res *enginetypes.VirtualizationWaitResult, err error) {
